@@ -293,7 +293,7 @@ pub fn judge(prop: Prop, req: &[u8], tcp: bool, resp: Option<&[u8]>, sc: &Scan, 
     }
 }
 
-fn exchange(server: &AnyServer, req: &[u8], tcp: bool, src: std::net::IpAddr, buf: &mut Vec<u8>) -> Result<Option<Vec<u8>>, Fail> {
+pub fn exchange(server: &AnyServer, req: &[u8], tcp: bool, src: std::net::IpAddr, buf: &mut Vec<u8>) -> Result<Option<Vec<u8>>, Fail> {
     match server.handle(req, tcp, src, buf) {
         Ok(Some(n)) => Ok(Some(buf[..n].to_vec())),
         Ok(None) => Ok(None),
